@@ -1,6 +1,162 @@
-//! C04: not implemented yet.
+//! C04: validation state from validation codes.
+//! A status is `[code, kind(0 success|1 informational|2 failure), ingredient_uri|null]`.
+//! case kinds:
+//!  {k:"results", active:null|[S,I,F], deltas:null|[[uri,S,I,F]..], ops:[status..], extra:status|null,
+//!   decoy_status:null|[codes], decoy_state:null|str}
+//!      -> state after build+ops, dump of the buckets, state after adding `extra`, state through Reader::from_json
+//!  {k:"legacy", status:null|[codes], verify_trust:bool, stored_state:null|str}   (no validation_results object)
+//!  {k:"logkind", code}
+use c2pa::{
+    status_tracker::LogKind,
+    validation_results::{
+        validation_codes::log_kind, IngredientDeltaValidationResult, StatusCodes, ValidationResults,
+        ValidationState,
+    },
+    validation_status::ValidationStatus,
+    Context, Reader,
+};
 use serde_json::{json, Value};
 
-pub fn run(_case: &Value) -> Value {
-    json!({"r": "unimplemented"})
+fn kind_of(k: u64) -> LogKind {
+    match k {
+        0 => LogKind::Success,
+        1 => LogKind::Informational,
+        _ => LogKind::Failure,
+    }
+}
+fn kind_no(k: &LogKind) -> u64 {
+    match k {
+        LogKind::Success => 0,
+        LogKind::Informational => 1,
+        LogKind::Failure => 2,
+    }
+}
+
+fn mk(st: &Value) -> ValidationStatus {
+    // public construction path: deserialize {"code":..}, then the public setters
+    let mut s: ValidationStatus =
+        serde_json::from_value(json!({"code": st[0].as_str().expect("code")})).expect("status");
+    s = s.set_kind(kind_of(st[1].as_u64().unwrap_or(0)));
+    if let Some(u) = st[2].as_str() {
+        s = s.set_ingredient_uri(u);
+    }
+    s
+}
+
+fn sc_from(s: &Value, i: &Value, f: &Value) -> StatusCodes {
+    let mut sc = StatusCodes::default();
+    for x in s.as_array().expect("S") {
+        sc = sc.add_success_val(mk(x));
+    }
+    for x in i.as_array().expect("I") {
+        sc = sc.add_informational_val(mk(x));
+    }
+    for x in f.as_array().expect("F") {
+        sc = sc.add_failure_val(mk(x));
+    }
+    sc
+}
+
+fn dump_list(l: &[ValidationStatus]) -> Value {
+    Value::Array(
+        l.iter()
+            .map(|s| json!([s.code(), kind_no(s.kind()), s.ingredient_uri()]))
+            .collect(),
+    )
+}
+fn dump_sc(sc: &StatusCodes) -> Value {
+    json!([dump_list(sc.success()), dump_list(sc.informational()), dump_list(sc.failure())])
+}
+fn dump(r: &ValidationResults) -> Value {
+    json!({
+        "active": r.active_manifest().map(dump_sc),
+        "deltas": r.ingredient_deltas().map(|ds| ds.iter().map(|d| {
+            let sc = d.validation_deltas();
+            json!([d.ingredient_assertion_uri(), dump_list(sc.success()), dump_list(sc.informational()), dump_list(sc.failure())])
+        }).collect::<Vec<_>>()),
+    })
+}
+fn st_name(s: ValidationState) -> &'static str {
+    match s {
+        ValidationState::Invalid => "Invalid",
+        ValidationState::Valid => "Valid",
+        ValidationState::Trusted => "Trusted",
+    }
+}
+
+pub fn run(case: &Value) -> Value {
+    match case["k"].as_str().unwrap_or("") {
+        "results" => {
+            // Some(vec![]) for the deltas is only reachable through deserialization
+            let mut r: ValidationResults = if case["deltas"].as_array().is_some_and(|d| d.is_empty()) {
+                serde_json::from_value(json!({"ingredientDeltas": []})).expect("de")
+            } else {
+                ValidationResults::default()
+            };
+            if let Some(a) = case["active"].as_array() {
+                r = r.add_active_manifest(sc_from(&a[0], &a[1], &a[2]));
+            }
+            if let Some(ds) = case["deltas"].as_array() {
+                for d in ds {
+                    r = r.add_ingredient_delta(IngredientDeltaValidationResult::new(
+                        d[0].as_str().expect("uri"),
+                        sc_from(&d[1], &d[2], &d[3]),
+                    ));
+                }
+            }
+            if let Some(ops) = case["ops"].as_array() {
+                for o in ops {
+                    r.add_status(mk(o));
+                }
+            }
+            let state = r.validation_state();
+            let d = dump(&r);
+            // the same results through a Reader (dispatch of Reader::validation_state, serde round trip)
+            let mut rj = json!({"manifests": {}, "validation_results": serde_json::to_value(&r).expect("ser")});
+            if let Some(ds) = case["decoy_status"].as_array() {
+                rj["validation_status"] = Value::Array(ds.iter().map(|c| json!({"code": c})).collect());
+            }
+            if let Some(s) = case["decoy_state"].as_str() {
+                rj["validation_state"] = json!(s);
+            }
+            let reader_state = match Reader::from_json(&rj.to_string()) {
+                Ok(rd) => st_name(rd.validation_state()).to_string(),
+                Err(e) => format!("err:{}", crate::util::err_class(&e)),
+            };
+            let state_extra = if case["extra"].is_array() {
+                r.add_status(mk(&case["extra"]));
+                Some(st_name(r.validation_state()))
+            } else {
+                None
+            };
+            json!({"r": "ok", "state": st_name(state), "dump": d, "reader_state": reader_state, "state_extra": state_extra})
+        }
+        "legacy" => {
+            let mut rj = json!({"manifests": {}});
+            if let Some(ds) = case["status"].as_array() {
+                rj["validation_status"] = Value::Array(ds.iter().map(|c| json!({"code": c})).collect());
+            }
+            if let Some(s) = case["stored_state"].as_str() {
+                rj["validation_state"] = json!(s);
+            }
+            let vt = case["verify_trust"].as_bool().unwrap_or(true);
+            let rd = if vt && !case["hook"].as_bool().unwrap_or(false) {
+                Reader::from_json(&rj.to_string())
+            } else {
+                let ctx = Context::new()
+                    .with_settings(json!({"verify": {"verify_trust": vt}}))
+                    .expect("settings");
+                Reader::verif_from_json_with_context(&rj.to_string(), ctx)
+            };
+            match rd {
+                Ok(rd) => json!({"r": "ok", "state": st_name(rd.validation_state()),
+                                 "has_results": rd.validation_results().is_some()}),
+                Err(e) => json!({"r": "err", "kind": crate::util::err_class(&e)}),
+            }
+        }
+        "logkind" => {
+            json!({"r": "ok", "kind": kind_no(&log_kind(case["code"].as_str().expect("code")))})
+        }
+        _ => json!({"r": "badcase"}),
+    }
 }
